@@ -83,7 +83,10 @@ def grid_slice_interp(grid: NssGrid, value: float, axis: Any) -> NssGrid:
 
     axis = grid.axis_names.index(axis) if isinstance(axis, str) else axis
 
-    new_data = interp1d(grid.axes[axis], grid.data, axis=axis)(value)
+    # Interpolate on a double precision copy of the axis: with a single precision axis the
+    # mixed-precision weights are not exactly 0 and 1 at the nodes.
+    axis_values = np.asarray(grid.axes[axis], dtype=np.float64)
+    new_data = interp1d(axis_values, grid.data, axis=axis)(value)
     new_axes = [ax for i, ax in enumerate(grid.axes) if i != axis]
     new_names = [n for i, n in enumerate(grid.axis_names) if i != axis]
     return NssGrid(new_data, new_axes, new_names)
